@@ -1431,6 +1431,7 @@ class HistRun:
 
                 from . import hist_oracles
 
+                FS.read_err_refs = True
                 for k in range(1, int(op["fault_sweep"]) + 1):
                     FS.err_fired = []
                     ev0 = FS.ev_seq
@@ -1446,6 +1447,7 @@ class HistRun:
                     FS.err_fired = []
                     self.count("fault.read_error_eio")
                     hist_oracles.c07(self, op, dict(ctx, resp=rk, status=rk.status if rk is not None else None, read_fault=True, io_fault=True), self.obs)
+                FS.read_err_refs = False
         ctx["status"] = r.status if r is not None else None
         return ctx
 
